@@ -811,3 +811,87 @@ consensus_read = Contract(
 )
 consensus_read.pre_state = lambda eng, fr: eng.spec_env.update({'MAXQ': named(INT, 'max_mapping_quality')})
 UNITS.append(consensus_read)
+
+
+# ------------------------------------------------------------------------------ extract_stretch_from_dict against its assumed contract
+# generate_partial_reads / get_dedup_reads use it through an assumed contract (b - a calls and as many qualities, position by
+# position, 'N' with quality 0 where nothing was called).  The function itself, on the real class, over an exhaustive small domain.
+def stretch_bounded(tier, seed):
+    import itertools
+    import json
+    import math
+    import os
+    from pyvc.contract import import_real
+    Mol = import_real(FM, 'Molecule')
+    m = object.__new__(Mol)
+    m.chromosome = 'chr1'
+    probs = [0.0, 0.5, 0.9, 0.99, 0.999999, 1.0]
+    n = 0
+    for present in itertools.product((False, True), repeat=4):
+        for shift in range(3):
+            calls = {('chr1', 10 + i): ('ACGT'[(i + shift) % 4], probs[(2 * i + shift) % len(probs)]) for i in range(4) if present[i]}
+            calls[('chr2', 11)] = ('T', 0.9)      # another contig at the same coordinate must not be read
+            for a, b in ((9, 15), (10, 14), (11, 12), (12, 12)):
+                want_seq = ''.join(calls.get(('chr1', p), ('N', 0))[0] for p in range(a, b))
+                want_q = [int(round(-10 * math.log10(min(max(1 - calls.get(('chr1', p), ('N', 0))[1], 1e-9), 0.999999999)))) for p in range(a, b)]
+                try:
+                    seq, q = m.extract_stretch_from_dict(calls, a, b)
+                    got = (seq, [int(x) for x in q])
+                except Exception as e:      # noqa: BLE001
+                    got = '%s: %s' % (type(e).__name__, e)
+                n += 1
+                if got != (want_seq, want_q):
+                    out = os.environ.get('VERIF_OUT', '.')
+                    os.makedirs(os.path.join(out, 'replays', PROP), exist_ok=True)
+                    path = 'replays/%s/extract_stretch_from_dict.json' % PROP
+                    json.dump({'property': PROP, 'obligation': '%s/extract_stretch_from_dict[assumed contract]' % PROP,
+                               'replay': {'status': 'confirmed', 'calls': {str(k): list(v) for k, v in calls.items()}, 'window': [a, b],
+                                          'observed': got if isinstance(got, str) else list(got), 'expected': [want_seq, want_q]}},
+                              open(os.path.join(out, path), 'w'), indent=1)
+                    return {'result': 'violation', 'replay': path, 'confirmed': True, 'calls': n}
+    return {'result': 'clean', 'calls': n}
+
+
+UNITS.append(Bounded(PROP, 'extract_stretch_from_dict[the contract the partial-read units assume, on the real class]', stretch_bounded,
+                     'calls at any subset of 4 positions x 3 base/probability assignments x 4 windows (192 calls)',
+                     'exhaustive run of the real function against the specification'))
+
+
+# ------------------------------------------------------------------------------ deduplicate_majority: the glue between the units above
+def majority_setup(eng):
+    eng.ghost.clear()
+    eng.ghost.update({'dedup_args': None, 'tagged': None})
+    eng.spec_env['GHOST'] = eng.ghost
+    conf = {('chr1', 10): {'A': ['pA']}, ('chr1', 11): {'C': ['pC1', 'pC2'], 'T': ['pT']}}
+    eng.spec_env['CONF'] = conf
+    eng.loader.call_hooks[Q + 'get_base_confidence_dict'] = lambda e, f, a, k, n: conf
+    eng.loader.call_hooks['singlecellmultiomics.utils.sequtils.phredscores_to_base_call'] = lambda e, f, a, k, n: ('call_of', a[0])
+    r1, r2 = Obj('PseudoRead', {'i': 1}), Obj('PseudoRead', {'i': 2})
+    eng.spec_env['READS'] = [r1, None, r2]
+
+    def dedup(e, f, a, k, n):
+        e.ghost['dedup_args'] = (list(a[1:]), dict(k))
+        return list(e.spec_env['READS'])
+    eng.loader.call_hooks[Q + 'get_dedup_reads'] = dedup
+    eng.loader.call_hooks[Q + 'write_tags_to_psuedoreads'] = lambda e, f, a, k, n: e.ghost.__setitem__('tagged', list(a[-1]))
+
+
+majority = Contract(
+    PROP, FM + '::Molecule.deduplicate_majority', name='Molecule.deduplicate_majority',
+    params={'self': lambda e, n: Obj('Molecule', {}, info=e.loader.classref(FM, 'Molecule')), 'target_bam': ('const', 'TARGET'),
+            'read_name': 'str', 'max_N_span': 'int'},
+    cases=[{}, {'max_N_span': 'none'}],
+    setup=majority_setup,
+    ensures={
+        'every_position_gets_the_call_of_its_own_observations':
+            'len(GHOST["dedup_args"][1]["obs"]) == 2 and all(GHOST["dedup_args"][1]["obs"][k] == ("call_of", CONF[k]) for k in CONF)',
+        'name_target_and_gap_limit_are_passed_on':
+            'GHOST["dedup_args"][0][0] == read_name and GHOST["dedup_args"][0][1] == "TARGET" and GHOST["dedup_args"][1]["max_N_span"] == max_N_span',
+        'every_record_that_exists_goes_through_the_tag_writer': 'len(GHOST["tagged"]) == 2 and (GHOST["tagged"][0] is READS[0]) and (GHOST["tagged"][1] is READS[2])',
+        'all_parts_are_returned': 'len(result) == 3 and (result[0] is READS[0]) and result[1] is None and (result[2] is READS[2])',
+    },
+    raises={},
+    assumptions=['get_base_confidence_dict, phredscores_to_base_call, get_dedup_reads, write_tags_to_psuedoreads through their own '
+                 'contracts above (recording hooks here)'],
+)
+UNITS.append(majority)
